@@ -79,6 +79,8 @@ def check(case):
               "ratio:" + ("<2" if ratio < 2 else "<100" if ratio < 100 else ">=100"), "mach:" + ("<1" if mmax < 1 else ">=1")]
     # the same history through solve()
     solver2 = cases.build_integrator(case["integ"], P.mesh, P.disc)
+    hist = sim.preuse_solver(P, solver2, case, case["cfl"])          # the solver object may have a past (e.g. a much slower flow: see sim.preuse_solver)
+    labels.append("solver-history:%d" % hist)
     res = solver2.solve(P.field, case["cfl"], stop={"maxit": case["nsteps"]})
     require(sim.admissible(md, res[-1].data), "solve-admissible", "solve(maxit=%d) ends outside the admissible set (%s/%s)" % (case["nsteps"], md["name"], case["flux"]))
     return dict(nontrivial=bool(ratio > 2 or mmax > 1), labels=labels)
